@@ -8,7 +8,7 @@ CONSTANTS
   TF = "t22s"
   PG = "p2a"
   TG = "t22s"
-  LAYOUTS = {"dfs", "hole", "rev", "low"}
+  LAYOUTS = {"rev"}
   EMIT = TRUE
 VIEW View
 INVARIANTS LawRegions
